@@ -7,6 +7,15 @@ use.  `features` selects optional input classes, several of which are known-find
   foreign_cond    type conditions the resolver does not recognise                    (F4/F23)
   weird_names     keyword / reserved / underscore / colliding names                  (F18, F7)
   untyped_inline  inline fragments without a type condition                          (F2)
+  var_names       operation variables named from SAFE_VAR_NAMES (C03; must work)
+  var_names_clash ... and from CLASH_VAR_NAMES                                       (F7/F18 for variables)
+  var_defaults    (with var_names*) some variables get default literals
+  arg_probe       both custom scalars + root fields probe0..n whose arguments cover all wrapper shapes (C03/C07)
+  subscriptions   a Subscription root type + subscription operations (async client forced); drawn from a
+                  SEPARATE rng so that the schema/operations of features=() are unchanged     (C15)
+  toplevel        extra operations shaped for C15: exactly one top-level field of every kind (leaf, enum,
+                  custom scalar, list, object, interface, union, aliased, __typename only, via a fragment on
+                  the root type) and one with several; separate rng as well                  (C15)
 
 The main stream (features=()) stays inside the part of GraphQL the generator is expected to handle.
 """
@@ -42,6 +51,16 @@ WEIRD_WORDS = ["class", "from", "None", "copy", "json", "schema", "_leading", "m
                "self", "validate", "async", "_1x", "type", "match"]
 ENUM_VALUES = ["RED", "GREEN", "BLUE", "ACTIVE", "INACTIVE", "lowercase", "MixedCase", "A1", "NONE_", "X_Y"]
 WEIRD_ENUM_VALUES = ["None", "True", "class", "from", "mro", "name", "value", "_x"]
+# C03: variable names.  SAFE: camelCase, acronyms, keywords, soft keywords, pydantic attribute names, names of the
+# method's locals (renamed by the generator) -- no two of them share a Python name.  CLASH: names that break the
+# generated method (DESIGN §7 F7/F18): self/kwargs (also after snake-casing), gql, pairs mangled to one name,
+# query together with _query.
+SAFE_VAR_NAMES = ["userId", "firstName", "HTTPCode", "id2", "class", "from", "None", "async", "match", "type", "copy",
+                  "json", "model_dump", "schema", "validate", "query", "variables", "response", "data", "x_Y",
+                  "fooBar", "isOK", "filter", "input", "first", "URLValue", "in", "is", "def", "Optional", "List",
+                  "UNSET", "execute", "url", "headers"]
+CLASH_VAR_NAMES = ["self", "kwargs", "gql", "foo_bar", "self_", "kwargs_", "class_", "_query", "_data", "Query",
+                   "_userId", "user_id", "ser_DateTime", "_1"]
 WRAPPERS = ["{}", "{}!", "[{}]", "[{}!]", "[{}]!", "[{}!]!", "[[{}]]", "[[{}!]!]!"]
 
 
@@ -70,6 +89,7 @@ class Gen:
         self.features = tuple(features)
         self.size = size
         self.weird = "weird_names" in self.features
+        self.rng2 = random.Random(seed * 7919 + 15)  # extra streams (subscriptions / toplevel) only
 
     # ------------------------------------------------------------------ schema
     def word(self, used: set, pool=None) -> str:
@@ -106,6 +126,8 @@ class Gen:
             self.custom.append("DateTime")
         if r.random() < 0.3:
             self.custom.append("JSONBlob")
+        if "arg_probe" in self.features:
+            self.custom = ["DateTime", "JSONBlob"]
         leafs = SCALARS + list(self.enums) + self.custom
         self.ifaces = {}
         iface_used = {"id", "name"}
@@ -187,6 +209,20 @@ class Gen:
             used.add(fname)
         for _ in range(2):
             q[self.word(used)] = (self.wrap(r.choice(leafs)), [])
+        if "arg_probe" in self.features:
+            # C03/C07: root fields whose arguments cover every wrapper shape over scalars, enums, custom scalars and
+            # input objects, some with argument defaults
+            for i in range(r.randint(3, 5)):
+                args = []
+                aused = set()
+                for _ in range(r.randint(2, 5)):
+                    base = r.choice(leafs + in_names + self.custom)
+                    t = self.wrap(base, 0.35)
+                    d = None
+                    if base not in in_names and r.random() < 0.2:
+                        d = self.default_literal(t, base)
+                    args.append((self.word(aused), t, d))
+                q[f"probe{i}"] = (self.wrap(r.choice(SCALARS + self.custom), 0.5), args)
         self.objs_all = dict(self.objs)
         self.query_fields = q
         self.mutation_fields = {}
@@ -195,6 +231,15 @@ class Gen:
             self.mutation_fields["update" + c] = (c + r.choice(["", "!"]),
                                                    [("input", r.choice(in_names) + "!", None),
                                                     ("dryRun", "Boolean", "false")])
+        self.subscription_fields = {}
+        if "subscriptions" in self.features:
+            r2 = self.rng2
+            n = 0
+            for c in r2.sample(composite, min(len(composite), 2)) + r2.sample(leafs, 2):
+                args = [("n", "Int", None)] if r2.random() < 0.5 else []
+                wraps = WRAPPERS[:2] if r2.random() < 0.6 else WRAPPERS
+                self.subscription_fields[f"on{c}{n}"] = (r2.choice(wraps).format(c), args)
+                n += 1
         return self.sdl()
 
     def default_literal(self, t: str, base: str) -> str:
@@ -247,6 +292,8 @@ class Gen:
         out.append(f"type Query {{\n{fields_sdl(self.query_fields)}\n}}")
         if self.mutation_fields:
             out.append(f"type Mutation {{\n{fields_sdl(self.mutation_fields)}\n}}")
+        if getattr(self, "subscription_fields", None):
+            out.append(f"type Subscription {{\n{fields_sdl(self.subscription_fields)}\n}}")
         return "\n\n".join(out) + "\n"
 
     # -------------------------------------------------------------- operations
@@ -268,24 +315,136 @@ class Gen:
             if self.opvars:
                 vars_txt = "(" + ", ".join(f"${n}: {t}" + (f" = {d}" if d else "") for n, t, d in self.opvars) + ")"
             ops.append(f"{kind} {name}{vars_txt} {sel}")
+        ops += self.extra_operations(gschema, depth)
         frs = [f"fragment {n} on {t} {s}" for n, (t, s) in self.frags.items()]
         if r.random() < 0.3 and self.gs.query_type:
             frs.append("fragment UnusedFrag on Query { __typename }")
         r.shuffle(frs)
         return "\n\n".join(ops + frs) + "\n"
 
+    def extra_operations(self, gschema, depth):
+        """Operations of the `subscriptions` / `toplevel` features, drawn from rng2 (main stream untouched)."""
+        if not ({"subscriptions", "toplevel"} & set(self.features)):
+            return []
+        ops = []
+        main_rng, self.rng = self.rng, self.rng2
+        try:
+            r = self.rng
+            k = 0
+
+            def required_args(fdef):
+                from graphql import Undefined
+
+                parts = []
+                for an, a in fdef.args.items():
+                    required = isinstance(a.type, GraphQLNonNull) and a.default_value is Undefined
+                    if required or r.random() < 0.6:
+                        parts.append(f"{an}: {self.variable(str(a.type))}")
+                return "(" + ", ".join(parts) + ")" if parts else ""
+
+            def valid(op_text):
+                from graphql.validation import NoUnusedFragmentsRule
+
+                rules = [x for x in specified_rules if x is not NoUnusedFragmentsRule]
+                frs = "\n".join(f"fragment {n} on {t} {s_}" for n, (t, s_) in self.frags.items())
+                try:
+                    return not validate(gschema, parse(op_text + "\n" + frs), rules)
+                except Exception:
+                    return False
+
+            def one(kind, root, fname, alias=""):
+                nonlocal k
+                for _attempt in range(4):
+                    snapshot = dict(self.frags)
+                    self.opvars = []
+                    fdef = root.fields[fname]
+                    named = get_named_type(fdef.type)
+                    sub = ""
+                    if is_composite_type(named):
+                        sub = " " + self.selection(named, max(1, depth - 1))
+                    body = f"{alias}{fname}{required_args(fdef)}{sub}"
+                    vars_txt = ""
+                    if self.opvars:
+                        vars_txt = "(" + ", ".join(f"${n}: {t}" for n, t, _d in self.opvars) + ")"
+                    k += 1
+                    text = (f"{kind} {r.choice(['Top', 'Single', 'watch', 'On'])}{fname[0].upper()}{fname[1:]}X{k}"
+                            f"{vars_txt} {{ {body} }}")
+                    if valid(text):
+                        return [text]
+                    self.frags = snapshot
+                return []
+
+            if "subscriptions" in self.features and gschema.subscription_type:
+                names = list(gschema.subscription_type.fields)
+                for fname in r.sample(names, min(len(names), r.randint(2, 3))):
+                    ops += one("subscription", gschema.subscription_type, fname)
+            if "toplevel" in self.features:
+                q = gschema.query_type
+                names = list(q.fields)
+                r.shuffle(names)
+                seen_kinds = set()
+                for fname in names:
+                    named = get_named_type(q.fields[fname].type)
+                    kind = type(named).__name__ + ("/" + named.name if is_leaf_type(named) else "")
+                    if kind in seen_kinds and r.random() < 0.6:
+                        continue
+                    seen_kinds.add(kind)
+                    ops += one("query", q, fname, alias="al: " if r.random() < 0.25 else "")
+                k += 1
+                ops.append(f"query OnlyTypename{k} {{ __typename }}")
+                leaf_names = [n for n in names if is_leaf_type(get_named_type(q.fields[n].type))
+                              and not q.fields[n].args]
+                if leaf_names:
+                    k += 1
+                    fn = f"RootFrag{k}"
+                    self.frags[fn] = ("Query", "{ " + leaf_names[0] + " }")
+                    ops.append(f"query ViaRootFrag{k} {{ ...{fn} }}")
+                    if len(leaf_names) > 1:
+                        k += 1
+                        ops.append(f"query FragPlusField{k} {{ ...{fn} {leaf_names[1]} }}")
+                        k += 1
+                        ops.append(f"query Several{k} {{ {leaf_names[0]} second: {leaf_names[1]} __typename }}")
+                if gschema.mutation_type:
+                    fname = next(iter(gschema.mutation_type.fields))
+                    ops += one("mutation", gschema.mutation_type, fname)
+        finally:
+            self.rng = main_rng
+        return ops
+
     def variable(self, type_str: str, default=None) -> str:
         n = f"v{len(self.opvars)}"
+        if "var_names" in self.features or "var_names_clash" in self.features:
+            used = {x[0] for x in self.opvars}
+            pool = SAFE_VAR_NAMES
+            if "var_names_clash" in self.features and self.rng.random() < 0.45:
+                pool = CLASH_VAR_NAMES
+            free = [w for w in pool if w not in used]
+            if free and self.rng.random() < 0.85:
+                n = self.rng.choice(free)
+            if "var_defaults" in self.features and default is None and self.rng.random() < 0.3:
+                default = self.var_default(type_str)
+            self.opvars.append((n, type_str, default))
+            return "$" + n
         if self.weird and self.rng.random() < 0.3:
             n = self.rng.choice(["fooBar", "class", "query", "variables", "data", "_x", "response"]) + str(len(self.opvars))
         self.opvars.append((n, type_str, default))
         return "$" + n
+
+    def var_default(self, type_str: str):
+        """A default literal for a variable of the given type (scalars / enums / lists of them only)."""
+        base = type_str.replace("[", "").replace("]", "").replace("!", "")
+        if base not in SCALARS and base not in self.enums:
+            return None
+        return self.default_literal(type_str, base)
 
     def arg_text(self, fdef) -> str:
         parts = []
         r = self.rng
         for an, a in fdef.args.items():
             required = isinstance(a.type, GraphQLNonNull) and a.default_value is None
+            if "arg_probe" in self.features:  # (the default stream keeps its historical RNG consumption)
+                from graphql import Undefined
+                required = isinstance(a.type, GraphQLNonNull) and a.default_value is Undefined
             if not required and r.random() < 0.4:
                 continue
             if r.random() < 0.7:
@@ -355,6 +514,12 @@ class Gen:
         r = self.rng
         used = set()
         parts = []
+        if top and "arg_probe" in self.features and t is self.gs.query_type:
+            probes = [f for f in t.fields if f.startswith("probe")]
+            for fname in r.sample(probes, min(len(probes), r.randint(1, 2))):
+                sel = self.field_sel(t, fname, t.fields[fname], depth, used)
+                if sel:
+                    parts.append(sel)
         if isinstance(t, GraphQLObjectType):
             parts += self.fields_of(t, depth, used, 1, 4 if not top else 3)
             if not top and r.random() < 0.25:
@@ -474,6 +639,8 @@ def make(seed: int, features=(), n_ops: int = 4, depth: int = 3, size: int = 2, 
             "async_client": r.random() < 0.5,
             "opentelemetry_client": r.random() < 0.25,
         }
+        if "subscriptions" in features:
+            cfg["async_client"] = True  # the generator refuses subscriptions for the sync client
         files = {}
         if "DateTime" in g.custom and r.random() < 0.7:
             files, sc = scalar_module()
